@@ -1255,6 +1255,10 @@ func (p *pendingRaftLogQuery) add(firstIndex uint64,
 	lastIndex uint64, maxSize uint64) (*RequestState, error) {
 	p.mu.Lock()
 	defer p.mu.Unlock()
+	if p.mu.stopped {
+		// nobody is going to answer or terminate a query added after close()
+		return nil, ErrShardClosed
+	}
 	if p.mu.pending != nil {
 		return nil, ErrSystemBusy
 	}
